@@ -6,10 +6,15 @@ decl forms (python tuples):
   ('A', name, base)                         alias of an enumeration type
   ('S', name, [(ename, ty[, init])])        structure type (init: an enumeration value for an element of an enumeration type)
   ('R', name, lo, hi)                       subrange type
+  ('T', name, width)                        string type `name : STRING[width]` (the model has no such declaration: it is encoded
+                                            as a structure type with one INT element, which the rules treat alike as long as no
+                                            constant / initialised variable of the type is generated)
   ('F'|'U'|'P', name, [vars], [stmts])      function block / function / program
   ('C', name, [globals], [tasks], [(inst, task|None, progtype)])
 var  = dict(name, cls in 'viox eg'.replace(' ',''), const bool, ty in 'b','i',('n',k), init int|None)
 stmt = ('a', target, [rhs]) | ('c', inst, [(formal, var)], [positional], [(out, target)])
+     | ('s', target, array, index)          `target := array[index];` (the model sees an assignment with the two names on the right)
+var ty 'a' = ARRAY[0..3] OF INT (an INT variable for the model)
 """
 import copy
 
@@ -26,10 +31,11 @@ STR_FORMS = ['STRING', 'STRING[10]', 'WSTRING', 'WSTRING[5]', 'STRING[1]']
 
 def ty_st(t, key=0):
     if t == 's': return STR_FORMS[key % len(STR_FORMS)]
-    return {'b': 'BOOL', 'i': 'INT'}.get(t) if isinstance(t, str) else nm(t[1])
+    return {'b': 'BOOL', 'i': 'INT', 'a': 'ARRAY[0..3] OF INT'}.get(t) if isinstance(t, str) else nm(t[1])
 
 
 def ty_enc(t):
+    if t == 'a': return 'i'
     return t if isinstance(t, str) else f'n{t[1]}'
 
 
@@ -98,6 +104,8 @@ def print_stmt(s, rng=None, indent='  '):
     if s[0] == 'a':
         rhs = ' + '.join(nm(r) for r in s[2]) if s[2] else '1'
         txt = f'{indent}{nm(s[1])} := {rhs};\n'
+    elif s[0] == 's':
+        txt = f'{indent}{nm(s[1])} := {nm(s[2])}[{nm(s[3])}];\n'
     else:
         args = [f'{nm(f)} := {nm(v)}' for f, v in s[2]] + [nm(p) for p in s[3]] + [f'{nm(o)} => {nm(t)}' for o, t in s[4]]
         txt = f"{indent}{nm(s[1])}({', '.join(args)});\n"
@@ -120,6 +128,8 @@ def print_decl(d, rng=None, sty=PLAIN):
         return f'TYPE\n  {nm(d[1])} : STRUCT\n{es}  END_STRUCT;\nEND_TYPE\n'
     if k == 'R':
         return f'TYPE\n  {nm(d[1])} : INT ({d[2]}..{d[3]});\nEND_TYPE\n'
+    if k == 'T':
+        return f'TYPE\n  {nm(d[1])} : STRING[{d[2]}];\nEND_TYPE\n'
     if k in 'FUP':
         head = {'F': 'FUNCTION_BLOCK', 'U': 'FUNCTION', 'P': 'PROGRAM'}[k]
         ret = ' : INT' if k == 'U' else ''
@@ -165,6 +175,8 @@ def enc_var(v):
 def enc_stmt(s):
     if s[0] == 'a':
         return f"a.{s[1]}.{'+'.join(str(r) for r in s[2])}"
+    if s[0] == 's':
+        return f"a.{s[1]}.{s[2]}+{s[3]}"
     return f"c.{s[1]}.{'+'.join(f'{a}={b}' for a, b in s[2])}.{'+'.join(str(p) for p in s[3])}.{'+'.join(f'{a}={b}' for a, b in s[4])}"
 
 
@@ -174,6 +186,7 @@ def enc_decl(d):
     if k == 'A': return f'A:{d[1]}:{d[2]}'
     if k == 'S': return f"S:{d[1]}:{','.join(f'{e[0]}.{ty_enc(e[1])}' + (f'.{e[2]}' if len(e) > 2 and e[2] is not None else '') for e in d[2])}"
     if k == 'R': return f'R:{d[1]}:{enc_int(d[2])}:{enc_int(d[3])}'
+    if k == 'T': return f'S:{d[1]}:7990.i'
     if k in 'FUP': return f"{k}:{d[1]}:{','.join(enc_var(v) for v in d[2])}:{','.join(enc_stmt(s) for s in d[3])}"
     if k == 'C':
         return f"C:{d[1]}:{','.join(enc_var(v) for v in d[2])}:{','.join(str(t) for t in d[3])}:{','.join(f'{i}.{chr(45) if t is None else t}.{p}' for i, t, p in d[4])}"
@@ -232,6 +245,15 @@ def gen_valid(rng, size=None):
     for _ in range(rng.randint(0, size)):
         lo = rng.randint(-5, 5)
         decls.append(('R', ns.new(), lo, lo + rng.randint(1, 10)))
+    # a string type, used by a structure element (declared before or after the structure) and by variables
+    strtypes = []
+    if rng.random() < 0.4:
+        t = ns.new(); strtypes.append(t)
+        sidx = [i for i, d in enumerate(decls) if d[0] == 'S']
+        if sidx and rng.random() < 0.7:
+            i = rng.choice(sidx); d = decls[i]
+            decls[i] = ('S', d[1], list(d[2]) + [(ns.new(), ('n', t))])
+        decls.insert(rng.randrange(len(decls) + 1), ('T', t, rng.choice([1, 20, 80])))
     # configuration globals (named first so that programs can declare externals)
     gconst = rng.random() < 0.5
     globals_ = [var(ns.new(), 'g', 'i', rng.randint(0, 99), gconst) for _ in range(rng.randint(0, 2))]
@@ -266,6 +288,12 @@ def gen_valid(rng, size=None):
             vs.append(var(ns.new(), 'v', ('n', t), rng.choice(vals)))
         if structs and rng.random() < 0.3:
             vs.append(var(ns.new(), 'v', ('n', rng.choice(structs))))
+        if strtypes and rng.random() < 0.4:
+            vs.append(var(ns.new(), 'v', ('n', strtypes[0])))
+        # an array and a read of one of its elements with a variable as the subscript
+        arrays = []
+        if kind != 'U' and rng.random() < 0.4:       # (the variable blocks of a FUNCTION have no array form in this parser)
+            av = var(ns.new(), rng.choice(['v', 'i'] if kind != 'P' else ['v']), 'a'); vs.append(av); arrays.append(av['name'])
         # externals of the configuration globals
         if kind != 'U':
             for g in globals_:
@@ -286,6 +314,8 @@ def gen_valid(rng, size=None):
         for _ in range(rng.randint(1, 3)):
             body.append(('a', rng.choice(writable + ([self_name] if kind == 'U' else [])),
                          [rng.choice(ints) for _ in range(rng.randint(0, 3))]))
+        for a in arrays:
+            body.append(('s', rng.choice(writable), a, rng.choice(ints)))
         for (iname, callee) in insts:
             cin = [v for v in callee[2] if v['cls'] in 'ix']
             cin_only = [v for v in callee[2] if v['cls'] == 'i']
@@ -432,6 +462,9 @@ def plant_all(decls, ns, rng):
                             out.append(('call-instance-declared-in-neighbour', 'P0021', mut(i, (k, d[1], vs, body + [('c', finst[0], [], [], [])]))))
             # per statement faults
             for j, s in enumerate(body):
+                if s[0] == 's':
+                    out.append(('undefined-var-subscript', 'P0015', mut(i, (k, d[1], vs, body[:j] + [('s', s[1], s[2], 7996)] + body[j + 1:]))))
+                    continue
                 if s[0] == 'a':
                     out.append(('undefined-var-rhs', 'P0015', mut(i, (k, d[1], vs, body[:j] + [('a', s[1], s[2] + [7996])] + body[j + 1:]))))
                     if k != 'U' or s[1] != d[1]:
